@@ -258,6 +258,8 @@ class UndirectedMultigraph : private LabeledUndirectedGraph<EdgeMultiplicity> {
                     ++j;
                 }
         }
+        for (VertexIndex i : *this)
+            edgeLabels.erase(orderedEdge(i, vertex));
     }
 
     /// @copydoc DirectedMultigraph::clearEdges
